@@ -163,10 +163,12 @@ class FileIndex:
                                 p.skip_group()
                         fname = p.ident()
                         p.expect(":")
+                        tstart = p.i
                         try:
                             ty = p.type_()
                         except RsError:
                             ty = None
+                            p.i = tstart     # (a failure inside `Arc<dyn T>` must not leave the skip inside the `<…>`)
                             p.skip_to_comma()
                         fields.append((fname, ty))
                         if not p.accept(","): break
@@ -336,6 +338,12 @@ class Parser:
                 self.expr()
             self.expect("]")
             return ("vec", t)
+        if self.peek().s == "dyn" and self.peek(1).k == "id":
+            # `dyn Trait` (behind `&`, `Box`, `Arc`): a named type the translator treats as opaque
+            self.next()
+            t = self.type_()
+            if self.peek().s == "+": self.err("unsupported type (trait object with bounds)")
+            return t
         if self.peek().s in ("impl", "dyn", "fn", "*"):
             self.err("unsupported type")
         segs = [self.ident()]
@@ -619,6 +627,16 @@ class Parser:
             return ("tuple", es)
         if x.s == "{" and x.k == "p":
             return self.block()
+        if x.s == "[" and x.k == "p":
+            # array literal `[a, b, c]` (the repeat form `[x; n]` is outside the subset)
+            self.next()
+            es = []
+            while not self.accept("]"):
+                es.append(self.expr())
+                if self.peek().s == ";": self.err("array repeat expression is outside the subset")
+                if not self.accept(","):
+                    self.expect("]"); break
+            return ("array", es)
         if x.s == "|" or x.s == "||":
             self.next()
             params = []
